@@ -8,7 +8,10 @@
 (* kinds ms (in document order); req = required; nul = nullable (3.1 type  *)
 (* list / null union member: the generator turns it into a union with a    *)
 (* `none` member APPENDED last for nullable:true, or wherever the document *)
-(* puts it).  WIRE VALUES are abstract classes of JSON values (one         *)
+(* puts it).  nest > 0: the first `nest` members are written as an INNER   *)
+(* oneOf (a nested union); UnionProperty.build flattens nested unions      *)
+(* preserving document order, so Members(d) does not depend on nest.       *)
+(* WIRE VALUES are abstract classes of JSON values (one         *)
 (* representative each, table in harness/codec.py).                        *)
 (*                                                                         *)
 (* OPERATIONAL: DecodeAttr / EncodeAttr mirror the templates: `d.pop`,     *)
@@ -31,19 +34,21 @@ JsonType(w) == CASE w = "null" -> "null" [] w \in {"t", "f"} -> "bool" [] w \in 
 ItemsOf(w) == CASE w = "arr0" -> {} [] w = "arri" -> {"i1", "i2"} [] w = "arrd" -> {"ds"} [] w = "arro" -> {"objv"} [] w = "arrs" -> {"s"} [] OTHER -> {}
 
 \* ---------------------------------------------------------------- kinds
-LeafKinds == {"any", "bool", "int", "float", "str", "date", "datetime", "uuid", "enums", "enumi", "none", "modelM", "modelN",
+\* modelS: a STRICT model (required v, additionalProperties: false): only objv is valid, but from_dict also accepts objvw and
+\* silently drops the undeclared key
+LeafKinds == {"any", "bool", "int", "float", "str", "date", "datetime", "uuid", "enums", "enumi", "none", "modelM", "modelN", "modelS",
               "listint", "listdate", "listM"}
 InnerOf(k) == CASE k = "listint" -> "int" [] k = "listdate" -> "date" [] k = "listM" -> "modelM" [] OTHER -> "any"
 IsList(k) == k \in {"listint", "listdate", "listM"}
 \* property templates that define a `construct` macro / a `check_type_for_construct` macro / a `transform` macro
-HasConstruct(k) == k \in {"date", "datetime", "uuid", "enums", "enumi", "modelM", "modelN", "listint", "listdate", "listM"}
+HasConstruct(k) == k \in {"date", "datetime", "uuid", "enums", "enumi", "modelM", "modelN", "modelS", "listint", "listdate", "listM"}
 HasCheck(k) == HasConstruct(k)
 HasTransform(k) == HasConstruct(k)
 
 \* isinstance check emitted by check_type_for_construct (Python: bool is an int)
 TypeOk(k, w) == CASE k \in {"date", "datetime", "uuid", "enums"} -> JsonType(w) = "str"
                   [] k = "enumi" -> JsonType(w) \in {"int", "bool"}
-                  [] k \in {"modelM", "modelN"} -> JsonType(w) = "dict"
+                  [] k \in {"modelM", "modelN", "modelS"} -> JsonType(w) = "dict"
                   [] IsList(k) -> JsonType(w) = "list"
                   [] OTHER -> TRUE
 \* does the construct expression succeed on w (given the type check passed or was not made)?
@@ -55,6 +60,7 @@ LeafConstructs(k, w) ==
     [] k = "enumi" -> w \in {"i1", "i2", "t", "f10"}                            \* IntEnum(True) = IntEnum(1.0) = member 1
     [] k = "modelM" -> w \in {"objv", "objvw"}                                  \* KeyError without the required key
     [] k = "modelN" -> w \in {"objw", "objvw"}
+    [] k = "modelS" -> w \in {"objv", "objvw"}
     [] k = "listint" -> JsonType(w) = "list"                                    \* cast only
     [] k \in {"listdate", "listM"} -> JsonType(w) = "list" /\ \A x \in ItemsOf(w) : LeafConstructs(InnerOf(k), x)
     [] OTHER -> TRUE
@@ -67,6 +73,7 @@ LeafValue(k, w) ==
     [] k = "enumi" -> <<"EnumI", IF w = "i2" THEN "i2" ELSE "i1">>
     [] k = "modelM" -> <<"M", w>>
     [] k = "modelN" -> <<"N", w>>
+    [] k = "modelS" -> <<"S", "objv">>                                           \* the undeclared key is dropped
     [] k = "listint" -> <<"raw", w>>
     [] k \in {"listdate", "listM"} -> <<"list", w>>
     [] OTHER -> <<"raw", w>>
@@ -119,6 +126,7 @@ InstanceOf(py, k) ==
     [] k = "enumi" -> py[1] = "EnumI"
     [] k = "modelM" -> py[1] = "M"
     [] k = "modelN" -> py[1] = "N"
+    [] k = "modelS" -> py[1] = "S"
     [] IsList(k) -> py[1] = "list" \/ (py[1] = "raw" /\ JsonType(py[2]) = "list")
     [] OTHER -> FALSE
 \* result of the member's transform applied to py: wire form, or "raise" (attribute error on a raw value)
@@ -160,6 +168,7 @@ ValidLeaf(k, w) ==
     [] k = "none" -> w = "null"
     [] k = "modelM" -> w \in {"objv", "objvw"}
     [] k = "modelN" -> w \in {"objw", "objvw"}
+    [] k = "modelS" -> w = "objv"
     [] k = "listint" -> w \in {"arr0", "arri"}
     [] k = "listdate" -> w \in {"arr0", "arrd"}
     [] k = "listM" -> w \in {"arr0", "arro"}
